@@ -18,6 +18,10 @@ package json
 //@ -- ownSkip(t, i): the skipable setting of 1-based column i+1 (nil when unset)
 //@ spec skipOf(t *tabular.ATable, c int) Iface = lookup(heap[tabular.valueProperty.chain], heap[tabular.valueProperty.key], heap[tabular.valueProperty.val], t.columns[c].properties, mkiface(type[*properties.propertyKey], box(properties.Skipable)))
 
+//@ -- memberValue(c): what is written as the value of a cell: the JSON encoding of its item, or of its text when
+//@ -- the item encodes as an empty object and the text is not empty
+//@ spec memberValue(c tabular.Cell) Str = (jsonEnc(c.raw) == "{}" && c.str != "") ? jsonEnc(mkiface(type[string], box(c.str))) : jsonEnc(c.raw)
+
 //@ func (*JSONTable).emitRowAsJSONObject
 //@   tags C07,C15,C09
 //@   requires jt != nil && w != nil && jsCellsFresh(cells) && len(skipableColumns) >= len(keys)
@@ -29,6 +33,8 @@ package json
 //@   ensures [earlier-output-kept] forall k int :: {Wchunk[k]} k < old(Wn) ==> Wchunk[k] === old(Wchunk)[k]
 //@   loop#1 invariant 0 <= i && i <= max && max == len(cells) && len(keys) >= max && !Wfailed && Wn >= old(Wn) && (separator == "{" || separator == ", ") && (separator == "{" ==> Wn == old(Wn))
 //@   loop#1 invariant forall k int :: {Wchunk[k]} k < old(Wn) ==> Wchunk[k] === old(Wchunk)[k]
+//@   call Write#1 before assert [member-key-is-the-columns-key] arg1 === keys[i] @C07
+//@   call Write#2 before assert [member-value-is-item-or-text-fallback] bytesStr(heap[byte], arg1) == memberValue(cells[i]) @C07
 //@   loop#1 decreases len(cells) - i
 
 //@ func (*JSONTable).RenderTo
@@ -59,6 +65,7 @@ package json
 //@   loop#1 invariant 0 <= i && i <= columnCount && columnCount == jtab(jt).nColumns && columnCount >= 1 && tbl(jt.Table) && !Wfailed && Wn == old(Wn) && jstate == 0 && jobjs == old(jobjs) && len(skipableColumns) == columnCount && len(keys) == columnCount && jtab(jt).headerRow != nil && headers === jtab(jt).headerRow.cells && len(headers) >= columnCount && seen != nil
 //@   loop#1 invariant forall k int :: {headers[k].str} 0 <= k && k < i ==> headers[k].str != ""
 //@   loop#1 invariant [skip-is-own-else-default] forall k int :: {skipableColumns[k]} 0 <= k && k < i ==> skipableColumns[k] == (skipOf(jtab(jt), k + 1) != nil ? skipOf(jtab(jt), k + 1).(bool) : defaultSkipable) @C07
+//@   call Marshal#1 before assert [key-is-the-header-text] arg0 == mkiface(type[string], box(headers[i].str)) @C07
 //@   loop#1 decreases columnCount - i
 //@   loop#2 invariant -1 <= rangeindex && rangeindex < len(jtab(jt).rows) && -1 <= lastObject && lastObject <= rangeindex && tbl(jt.Table) && !Wfailed && jstate == 1 && jobjs == old(jobjs) && len(skipableColumns) == columnCount && len(keys) == columnCount && columnCount == jtab(jt).nColumns
 //@   loop#2 invariant lastObject >= 0 ==> !jtab(jt).rows[lastObject].isSeparator
